@@ -151,6 +151,33 @@ fn main() {
                 }
             }
         }
+        "trace" => {
+            let path = args.get(2).expect("replay file");
+            let body = std::fs::read_to_string(path).expect("read replay");
+            let r: drive::Replay = serde_json::from_str(&body).expect("parse replay");
+            let scn = std::sync::Arc::new(r.scenario.clone());
+            let sched = if rt::SCHED { r.sched.clone() } else { exec::Sched::Os };
+            let h = exec::execute(&scn, &sched);
+            println!("prelude: {:?}", scn.prelude);
+            for (i, t) in scn.threads.iter().enumerate() {
+                println!("thread {}: {:?}", i + 1, t);
+            }
+            println!("epilogue: {:?}", scn.epilogue);
+            println!("stores: {:?}", scn.stores);
+            for (i, rec) in h.recs.iter().enumerate() {
+                let what = match &rec.ev {
+                    log::Ev::Inv { th, ix } => format!("Inv t{}#{} {:?}", th, ix, digest::op_of(&scn, *th, *ix)),
+                    e => format!("{:?}", e),
+                };
+                println!("@{:<4} tid{:<2} {}", i, rec.tid, what);
+            }
+            println!("end: {:?}", h.end);
+            let p = props::by_id(&r.property).expect("property");
+            let out = (p.check)(&scn, &h);
+            for v in out.violations {
+                println!("VIOL: {}", v.msg);
+            }
+        }
         _ => {
             eprintln!("usage: {} run <ID> <quick|thorough> | replay <file>", args[0]);
             std::process::exit(2);
